@@ -60,11 +60,60 @@ theorem C18_rr_fair_nodup (st : RR) (hw : WF st) (ps : List Int) (hs : ps.Pairwi
   refine ⟨picks, st', h, fun p hp => ?_⟩
   rw [hc p, hnd.count, if_pos hp, Nat.mul_one]
 
+/-- The producer keeps one partitioner per topic: under ANY interleaving of selections for other
+    topics (any lists, any starts), if the selections for topic `t` in the window are `k·n` calls
+    with the same ascending list of `n` partitions, each partition is chosen exactly `k` times for
+    `t` — other topics' traffic cannot disturb `t`'s cycle. -/
+theorem C18_producer_per_topic_fair (m : PMap) (t : String) (st : RR) (hg : m.get t = some st)
+    (hw : WF st) (ps : List Int) (hs : ps.Pairwise (· ≤ ·)) (hne : ps ≠ []) (start : Option Nat)
+    (k : Nat) (cs : List Call)
+    (hcs : cs.filter (fun c => c.topic = t) = List.replicate (k * ps.length) ⟨t, ps, start⟩) :
+    ∃ picks : List Int, picksOf t m cs = picks.map some ∧ ∀ p, picks.count p = k * ps.count p := by
+  obtain ⟨picks, st', hp, hc⟩ := rr_fair st hw ps hs hne start k
+  refine ⟨picks, ?_, hc⟩
+  rw [picksOf_filter t m m rfl cs, hcs]
+  exact picksOf_replicate t m st hg ps start _ picks st' hp
+
+/-- Every partitioner the producer holds stays well-formed, whatever calls are made. -/
+theorem C18_producer_wf (m m' : PMap) (t : String) (ps : List Int) (start : Option Nat) (x : Int)
+    (hm : ∀ t st, m.get t = some st → WF st)
+    (h : nextPartitionRR m t ps start = some (x, m')) : ∀ t' st, m'.get t' = some st → WF st := by
+  intro t' st' hg
+  unfold nextPartitionRR at h
+  cases hgo : getOrNew m t ps start with
+  | none => rw [hgo] at h; exact absurd h (by simp)
+  | some s =>
+    rw [hgo] at h
+    simp only at h
+    have hws : WF s := by
+      unfold getOrNew at hgo
+      cases hmt : m.get t with
+      | none => rw [hmt] at hgo; exact setPartitions_wf hgo
+      | some s0 => rw [hmt] at hgo; simp only [Option.some.injEq] at hgo; subst hgo; exact hm t _ hmt
+    cases hr : rrPartition s ps start with
+    | none => rw [hr] at h; exact absurd h (by simp)
+    | some r =>
+      obtain ⟨y, s'⟩ := r
+      rw [hr] at h
+      simp only [Option.some.injEq, Prod.mk.injEq] at h
+      obtain ⟨_, rfl⟩ := h
+      by_cases he : t' = t
+      · subst he
+        rw [PMap.get_set_same] at hg
+        simp only [Option.some.injEq] at hg; subst hg
+        exact rrPartition_wf hws hr
+      · rw [PMap.get_set_other _ _ _ _ he] at hg
+        exact hm t' st' hg
+
 /-! Non-vacuity: concrete states and inputs meeting the hypotheses. -/
 example : WF { parts := [0, 1, 2], rot := rotateN 2 [0, 1, 2] } := by show (rotateN 2 [0,1,2]).Perm [0,1,2]; exact rotateN_perm 2 _
 example : ([0, 1, 5] : List Int).Pairwise (· ≤ ·) ∧ ([0, 1, 5] : List Int) ≠ [] := by decide
 example : rrPicks { parts := [9], rot := [9] } [0, 1, 5] (some 2) 6
     = some ([5, 0, 1, 5, 0, 1], { parts := [0, 1, 5], rot := [5, 0, 1] }) := by decide +kernel
+
+example : (PMap.get [("a", ⟨[0,1], [1,0]⟩)] "a" = some ⟨[0,1], [1,0]⟩) ∧
+    ([⟨"a", [0,1], none⟩, ⟨"b", [7], none⟩, ⟨"a", [0,1], none⟩] : List Call).filter (fun c => c.topic = "a")
+      = List.replicate (1 * 2) ⟨"a", [0,1], none⟩ := by decide
 
 /-! Tests of the Java transcription (TESTS, not theorems): the vectors of the Java client's own
 `UtilsTest.testMurmur2` (signed ints shown as their 32-bit patterns) and of
@@ -90,4 +139,6 @@ C18_rr_fair
 C18_rr_reachable_wf
 C18_rr_restart
 C18_rr_fair_nodup
+C18_producer_per_topic_fair
+C18_producer_wf
 -/
